@@ -4,7 +4,7 @@ import struct
 CF = ['PERSONALITY', 'AUTO_DESTROY', 'REQ_DECOMP', 'RES_DECOMP', 'PARSE_COOKIES', 'PARSE_AUTH', 'URLENC_PARSER',
       'MULTIPART_PARSER', 'ALLOW_SPACE_URI', 'LOG_LEVEL', 'FIELD_SOFT', 'FIELD_HARD', 'MAX_TX', 'LAYER_LIMIT',
       'BOMB_LIMIT', 'LZMA_MEMLIMIT', 'LZMA_LAYERS', 'TIME_LIMIT', 'CB_HOOK', 'CB_N', 'CB_RC', 'TX_HOOKS',
-      'DESTROY_DONE', 'SECOND_CB', 'CFG_COPY', 'DEC_MASK', 'DEC_VALS', 'DEC_INVALID', 'EXTRACT_FILES', 'OPEN', 'DUMP', 'MEM_SAMPLES', 'STRICT_RAW', 'TX_CFG']
+      'DESTROY_DONE', 'SECOND_CB', 'CFG_COPY', 'DEC_MASK', 'DEC_VALS', 'DEC_INVALID', 'EXTRACT_FILES', 'OPEN', 'DUMP', 'MEM_SAMPLES', 'STRICT_RAW', 'TX_CFG', 'HDR_LIMIT', 'LEADING_WS']
 CF_N = 40
 CFI = {n: i for i, n in enumerate(CF)}
 
